@@ -8,7 +8,7 @@ static Profile profile_for(const std::string& mode) {
   Profile p;
   if (mode == "C03") { p.p_aligned = 70; p.w_realloc = 14; p.w_expand = 3; p.w_heap = 2; p.w_talloc = 0; }
   else if (mode == "C04") { p.p_zero = 55; p.w_realloc = 16; p.w_zchain = 14; p.w_tfree = 4; p.w_heap = 5; p.w_churn = 4; }
-  else if (mode == "C05") { p.w_realloc = 30; p.w_expand = 5; p.w_alloc = 25; }
+  else if (mode == "C05") { p.w_realloc = 30; p.w_expand = 5; p.w_alloc = 25; p.w_edge = 3; }
   else if (mode == "C06") { p.w_edge = 25; p.big_ok = false; }
   else if (mode == "C10") { p.w_heap = 16; p.p_heap_api = 60; p.w_tfree = 3; p.arenas = true; p.big_ok = false; }
   else if (mode == "C12") { p.w_visit = 12; p.w_fill = 12; p.w_holes = 10; p.stop_visits = true; p.w_tfree = 4; p.w_talloc = 2; p.big_ok = false; }
@@ -63,6 +63,7 @@ struct HistHarness : eng::Harness {
     if (execute_special(mode, c, ex)) return;
     if (ex.police_purge || mode == "C18") install_purge_police(ex);
     if (mode == "C07") vf_set_event_fn(&c07_event);
+    if (mode == "C15") { ex.check_arena = true; vf_set_event_fn(&c15_event); }
     ex.run(c);
   }
 };
